@@ -34,6 +34,7 @@ def case_ops_text(cid, case, upto=None):
 
 
 PORTS = {"n": 0}
+NOMODEL = {"slowbody"}
 
 
 def port_base(ctx):
@@ -73,6 +74,11 @@ def run_families(ctx, plan, corpus_dirs=()):
         if rc != 0:
             # the emulator (or the harness) died: the last case on disk is the one that was running
             result["crashes"].append((fam, out, cases, rc, outp))
+        if fam in NOMODEL:
+            # behaviour the system model does not express (a request body that arrives in pieces holds the
+            # server mutex): judged by the model-free monitors only
+            ctx.cov["correspondence"].append({"driver": "stackdrv " + fam, "model": "(monitors only)", "cases": len(cases), "steps": sum(len(c["steps"]) for c in cases.values()), "mismatches": 0})
+            continue
         summ, mism, raw = ctx.oracle("sys", out)
         if summ is None:
             ctx.violation(f"oracle-failed:{fam}", "rie-oracle sys produced no summary", raw[-2000:], found_input=False, tag="oracle")
